@@ -22,7 +22,11 @@ Oracles
        detectors blind to the label). Overlap 1 must also equal the permanent formula and overlap 0
        the classical (multinomial) particles, both evaluated in the harness.
   Tolerance 1e-9 absolute on probabilities (quantities of order one, sums of <= 4!*2^4 products of
-  matrix entries of modulus <= 1: 1e-9 >= 1e6 * eps * scale), imaginary parts <= 1e-12.
+  matrix entries of modulus <= 1: 1e-9 >= 1e6 * eps * scale). Imaginary parts <= 1e-11: the
+  single-outcome interface returns np.real_if_close of a loop-hafnian sum (up to ~1e2-1e3 addends of
+  modulus <= 1 per pair of input terms), so rounding leaves up to ~1e3 * eps * (number of term pairs);
+  1e-11 = 5e4 eps keeps a factor >= 10 above that (largest value seen: 2e-13), a real conjugation
+  slip leaves 1e-3..1e-1.
 """
 
 import itertools
@@ -70,12 +74,12 @@ REQUIRED = ["states_recorded", "hook_steps", "cmp_table_vs_single", "cmp_margina
 WATCHDOG = {"quick": 900, "thorough": 5400}
 
 TOL = 1e-9
-IMAG_TOL = 1e-12
-NEG_TOL = 1e-12
+IMAG_TOL = 1e-11
+NEG_TOL = 1e-11
 
 KNOWN_TABLE = "passive-lossy-probability-table-conjugation"
 KNOWN_SUPER = "passive:lossy-probability-of-superposition-conjugated"
-KEY_DIST_KERNEL = "passive:lossy-distinguishable-probability-conjugated-loss-kernel"
+KEY_DIST_KERNEL = "passive:general-probability-formula-detected-kernel-conjugated"
 KEY_POST_TABLE = "passive:postselected-lossy-or-distinguishable-table-basis-reduced-twice"
 KEY_POST_SUPER = "passive:postselected-superposition-state-vector-terms-misaligned"
 
@@ -456,9 +460,13 @@ def reference(pq, case, T, lossy, conj_amps=False):
 
 
 def wrong_kernel_formula(T, occ, Gm):
-    """SYMPTOM PREDICATE ONLY. Coefficients [x^s] Per(G o (1 - T^+T)_in + sum_m x_m G o (t_m t_m^+)) / Z,
-    i.e. the general loss/distinguishability formula with the *unconjugated* loss kernel (the
-    correct one is 1 - conj(T^+T)); brute force over permutations. Returns {s: value}."""
+    """SYMPTOM PREDICATE ONLY - never an oracle. Coefficients
+        [x^s] Per( G o (1 - T^+T)_in + sum_m x_m G o (t_m t_m^+) ) / Z,     t_m = T[m, input modes],
+    i.e. the general loss / distinguishability formula as the library evaluates it (brute force over
+    permutations here, Ryser there). The internal-mode model gives G o (conj(t_m) t_m^T) for the detected
+    kernels (validated to 1e-15 against the reference); with t_m t_m^+ the detected kernels are conjugated
+    relative to the Gram matrix and the loss kernel, which is invisible for real T, and for real G as long
+    as T^+T is real on the input modes. Returns {s: value}."""
     from vf.refs import passive_dilation as R
 
     T = np.asarray(T, dtype=complex)
@@ -731,7 +739,7 @@ def evaluate(ctx, pq, case):
         if (lossy and feat["multi"] and involved == {"single"} and single_ok and close(single, conj_reference_active(), basis)):
             ctx.c["known_symptom_matches"] += 1
             return KNOWN_SUPER
-        if (lossy and feat["complex"] and partially_dist and involved <= {"single", "table"} and observed is not None
+        if (feat["complex"] and partially_dist and involved <= {"single", "table"} and observed is not None
                 and close(observed, wrong_kernel_active(), basis)):
             ctx.c["known_symptom_matches"] += 1
             return KEY_DIST_KERNEL
@@ -957,7 +965,7 @@ def plan(tier, seed):
     env = {"OPENBLAS_NUM_THREADS": "1", "OMP_NUM_THREADS": "1", "NUMBA_NUM_THREADS": "2"}
     n = 8 if tier == "quick" else 16
     per = {"quick": {"number": 34, "superposition": 34, "dist-scalar": 22, "dist-gram": 22},
-           "thorough": {"number": 420, "superposition": 420, "dist-scalar": 260, "dist-gram": 260}}[tier]
+           "thorough": {"number": 300, "superposition": 300, "dist-scalar": 200, "dist-gram": 200}}[tier]
     return [{"name": "%s-%d" % (FAMILIES[i % 4], i), "family": FAMILIES[i % 4], "shard": i, "count": per[FAMILIES[i % 4]], "env": env}
             for i in range(n)]
 
@@ -983,7 +991,7 @@ def run_shard(spec):
     rng = np.random.default_rng([int(spec["seed"]), 5, int(spec["shard"])])
     ctx = Ctx()
     t0 = time.time()
-    budget = 110 if spec["tier"] == "quick" else 780
+    budget = 110 if spec["tier"] == "quick" else 200
     cutoff_observation(ctx, pq)
     for i in range(int(spec["count"])):
         if time.time() - t0 > budget:
